@@ -268,7 +268,19 @@ class BlockBaseError(BaseException):
 
 HEADER_NAMES = ["X-A", "x-a", "X-a", "X-Test", "x-test", "X-TEST", "Authorization", "authorization", "User-Agent", "user-agent",
                 "USER-AGENT", "Content-Length", "content-length", "Content-Type", "CONTENT-TYPE", "X-Num", "Accept-Language"]
-HEADER_VALUES = ["v1", "v2", "v3", "", "a b", 0, 5, 1.5, True, False, None, "ünï"]
+HEADER_VALUES = ["v1", "v2", "v3", "", "a b", 0, 5, 1.5, True, False, None, "ünï", [1, 2], [], {"tuple": ["gzip"]}, {"tuple": []},
+                 {"tuple": ["a", "b"]}]
+
+
+def header_value(x):
+    """Program (JSON) form of a header value -> the Python object pushed: {"tuple": [...]} stands for a tuple."""
+    if isinstance(x, dict) and "tuple" in x:
+        return tuple(x["tuple"])
+    return x
+
+
+def header_dict(d):
+    return dict((k, header_value(v)) for k, v in (d or {}).items())
 
 
 def case_variant(rng, name):
@@ -387,8 +399,9 @@ class C18Run(object):
                 ids_before = list(self.stack)
                 s.emit("block.enter", len(self.stack))
                 try:
-                    with self.proxy._additional_headers(op[1]) as cl:
-                        self.stack.append(op[1])
+                    pushed = header_dict(op[1])
+                    with self.proxy._additional_headers(pushed) as cl:
+                        self.stack.append(pushed)
                         if cl is not self.proxy:
                             s.emit("block.client", False)
                         self.interp(op[2])
@@ -444,8 +457,9 @@ class C18Run(object):
             # xmlrpc.client turns the user info of the URL into an Authorization header: the bottom layer of the stack
             self.base = {"authorization": "Basic " + base64.b64encode(p["credentials"].encode()).decode()}
             s.probe("credentials_in_url")
-        self.proxy = self.jc.ServerProxy(url, headers=p.get("ctor"), config=cfg)
-        self.stack = [p.get("ctor") or {}]
+        ctor = header_dict(p.get("ctor")) if p.get("ctor") is not None else None
+        self.proxy = self.jc.ServerProxy(url, headers=ctor, config=cfg)
+        self.stack = [ctor or {}]
         try:
             self.interp(p["ops"])
         except core.SimAbort:
@@ -457,7 +471,7 @@ class C18Run(object):
         # after everything: only the constructor headers remain; one more healthy call proves it on the wire
         tr = self.proxy("transport")
         s.emit("final.stack", [dict((str(k), str(v)) for k, v in d.items()) for d in tr.additional_headers] ==
-               [dict((str(k), str(v)) for k, v in (p.get("ctor") or {}).items())], len(tr.additional_headers))
+               [dict((str(k), str(v)) for k, v in header_dict(p.get("ctor")).items())], len(tr.additional_headers))
         try:
             self.do_request("call")
         except core.SimAbort:
@@ -658,7 +672,8 @@ def gen_c17(rng):
     k = rng.random()
     backend = rng.choice(["ascii", "raw-utf8", "raw-utf8"])
     if k < 0.5:
-        path = rng.choice(["", "/", "/RPC2", "/a/b", "/a%20b/c", "/x%2Fy", "/caf%C3%A9", "//double", "/trailing/"])
+        path = rng.choice(["", "/", "/RPC2", "/a/b", "/a%20b/c", "/x%2Fy", "/caf%C3%A9", "//double", "/trailing/", "/api/v1:main",
+                           "/services/rpc+json", "/a,b=c&d", "/x!$'()*", "/@user/~home", "/dot.ted/-_.~"])
         query = rng.choice(["", "", "x=1", "a=1&b=2", "q=%2F%3F", "empty=", "k"])
         # the decoded body starts with {"jsonrpc": "2.0", "id": "<36 chars>", "result": " : about 70 bytes
         around = rng.choice([None, 1024 - 70, 2048 - 70, 1024 - 70, 3072 - 70, 500])
